@@ -37,6 +37,7 @@ type ChainCfg struct {
 	RunDir       string
 	Repeat       bool // run the implementation several times per case (map iteration order)
 	Degenerate   bool // C15: odd layouts (empty rules, missing keys)
+	ParamRules   bool // C10: product rules carry {PAT} markers
 }
 
 type Level struct {
@@ -209,6 +210,10 @@ func (g *chainGen) buildLevel(depth int, initial Files, signers []*TestKey, name
 		}
 		st = st.Set("expected_materials", g.rules(prevName, style, true, mats))
 		st = st.Set("expected_products", g.rules(prevName, style, false, prods))
+		if cfg.ParamRules && top {
+			st = st.Set("expected_products", []any{[]any{"ALLOW", "{PAT}"}, []any{"DISALLOW", "*"}})
+			st = st.Set("expected_command", []any{"build", "{PAT}", "{UNUSED}"})
+		}
 		if cfg.Degenerate && rng.Chance(25) {
 			st = st.Set("expected_products", []any{[]any{[]any{}}, []any{nil}, []any{[]any{"ALLOW"}}}[rng.Intn(3)])
 		}
@@ -528,6 +533,34 @@ func materialise(a map[string]any) (layoutPath, linkDir, prodDir, marker string)
 			}
 		}
 	}
+	return
+}
+
+// materialiseProducts (re)creates only the product directory and clears the marker.
+func materialiseProducts(a map[string]any) (layoutPath, linkDir, prodDir, marker string) {
+	base := filepath.Join(scratch(), "scn")
+	marker = str(a["marker"])
+	os.Remove(marker)
+	if str(a["entry"]) == "withdir" {
+		prodDir = str(a["rundir"])
+	} else {
+		prodDir = filepath.Join(base, "products")
+	}
+	os.RemoveAll(prodDir)
+	st := str(a["rundir_state"])
+	if str(a["entry"]) == "withdir" && st == "missing" {
+		return
+	}
+	os.MkdirAll(prodDir, 0o755)
+	if fm, ok := a["fs"].(map[string]any); ok {
+		for n, c := range fm {
+			p := filepath.Join(prodDir, n)
+			os.MkdirAll(filepath.Dir(p), 0o755)
+			os.WriteFile(p, []byte(str(c)), 0o644)
+		}
+	}
+	// the working directory of a with-directory run collects the inspection links: clear it too
+	os.RemoveAll(filepath.Join(scratch(), "cwd"))
 	return
 }
 
